@@ -437,6 +437,25 @@ M('C10', 'coupling terms overwrite instead of accumulate', TERMS,
   'd3[op_j] = d3.get(op_j, 0) + strength', 'd3[op_j] = strength', 'TERMS-accumulate')
 
 # ---------------------------------------------------------------- C12
+M('C12', 'coupling handler accepts a single fermionic operator', TERMS,
+  "            elif need_JW_i or need_JW_j:\n                raise ValueError('Only one of the operators needs a Jordan-Wigner string?!')\n",
+  "", 'JW-entry')
+M('C12', 'coupling handler multiplies JW onto the right operator', TERMS,
+  "            op_i = site_i.multiply_op_names([op_i, op_string])",
+  "            op_j = site_j.multiply_op_names([op_j, op_string])", 'JW-entry')
+M('C12', 'coupling handler looks both operators up on site i', TERMS,
+  "        site_j = sites[j % L]\n        need_JW_i", "        site_j = sites[i % L]\n        need_JW_i", 'JW-entry')
+M('C12', 'coupling handler with De Morgan and guard clause (equivalent)', TERMS,
+  """            if need_JW_i and need_JW_j:
+                op_string = 'JW'
+            elif need_JW_i or need_JW_j:
+                raise ValueError('Only one of the operators needs a Jordan-Wigner string?!')
+            else:
+                op_string = 'Id'
+""", """            if need_JW_i != need_JW_j:
+                raise ValueError('Only one of the operators needs a Jordan-Wigner string?!')
+            op_string = 'JW' if need_JW_i else 'Id'
+""", None, 'silent')
 M('C12', 'correlation_function ops1 for sites2 (original defect)', MPS,
   'op_needs_JW(ops2[j % len(ops2)])', 'op_needs_JW(ops1[j % len(ops1)])', 'FAMILY-mix')
 M('C12', 'grouped drop uses sites[0] (original defect)', SITE,
